@@ -4,7 +4,7 @@
     the per-run translator obligations and the correspondence), about the Thomas solver, and about the drivers. *)
 From Coq Require Import Reals List Lra Lia.
 From Dadi Require Import Base.Num Base.NumR Model.Tridiag Model.Scheme Model.NDSweep
-  Proofs.TridiagProofs Proofs.SchemeProofs Proofs.Drivers Proofs.NDLines Proofs.NDSweepProofs.
+  Proofs.TridiagProofs Proofs.SchemeProofs Proofs.Drivers Proofs.NDLines Proofs.NDSweepProofs Proofs.Pivots.
 Import ListNotations.
 Local Open Scope R_scope.
 
@@ -66,6 +66,18 @@ Theorem C02_sweep_solves_scheme_any_dimension : forall shape grids pops k p, nth
     = nthF (get_line shape k phi o q) i / dt.
 Proof. exact sweep_solves_scheme. Qed.
 Print Assumptions C02_sweep_solves_scheme_any_dimension.
+
+(** the hypothesis "no pivot vanishes" follows from a checkable condition: on a strictly increasing grid, with dt > 0
+    and nu > 0, if both interface coefficients of every cell are non-negative (cell-Peclet condition; always true
+    without advection, and what the delj switch is designed to ensure) every Thomas pivot is strictly positive —
+    because the trapezoid-weighted column sums of the conservative scheme are w_j/dt + absorbing term > 0 *)
+Theorem C02_pivots_positive_under_peclet_condition : forall xs Vf Mf nu c0 c1 dt use_delj,
+  (2 <= length xs)%nat -> (forall i, (i < length xs - 1)%nat -> 0 < dx xs i) -> 0 < dt -> 0 < nu ->
+  (forall i, (i < length xs - 1)%nat -> 0 <= atemp xs Vf Mf use_delj i) ->
+  (forall i, (i < length xs - 1)%nat -> 0 <= ctemp xs Vf Mf use_delj i) ->
+  forall phi, allpos (all_pivots (line_rows xs Vf Mf nu c0 c1 dt use_delj phi)).
+Proof. exact line_pivots_positive. Qed.
+Print Assumptions C02_pivots_positive_under_peclet_condition.
 
 (** absorbing terms exist only on the all-zero / all-one corner lines *)
 Lemma bcterm_off_corner xs Mf nu i : bcterm xs Mf nu false false i = 0.
